@@ -150,6 +150,12 @@ impl<Key> AdmissionPolicy<Key>
         self.cache_weight.delete(key_id, delete_hook);
     }
 
+    pub(crate) fn delete_if_with_hook<Condition, DeleteHook>(&self, key_id: &KeyId, should_delete: &Condition, delete_hook: &DeleteHook)
+        where Condition: Fn(&Key) -> bool,
+              DeleteHook: Fn(Key) {
+        self.cache_weight.delete_if(key_id, should_delete, delete_hook);
+    }
+
     pub(crate) fn contains(&self, key_id: &KeyId) -> bool {
         self.cache_weight.contains(key_id)
     }
